@@ -199,7 +199,7 @@ def convert_events(evs, attach_calls=True):
             e["fnfilter"] = [] if e["fnfilter"] == "-" else list(e["fnfilter"].encode())
         if e.get("e") == "SetFile":
             d = os.path.dirname(e["path"])
-            e["abs"] = [n if n.startswith("/") else os.path.join(d, n) for n in e["names"]]
+            e["abs"] = [os.path.normpath(n if n.startswith("/") else os.path.join(d, n)) for n in e["names"]]
             e["bcs"] = [ord(os.path.basename(n)[0]) for n in e["names"]]
         if e.get("e") == "SInit":
             e["tmpdir"] = list(e["tmpdir"].encode())
